@@ -28,6 +28,16 @@ CHECKS = {
              "the items mean what Python's re means (anchoring, DOTALL) is covered by the bounded direct route only. "
              "If the pattern cannot be parsed the check degrades to the bounded route and says so in the evidence.",
         ref="5/C05"),
+    "C04": dict(
+        technique="TLA+ requirement InfoOf (Project.tla) vs sequential mechanism model MInfoOf (Precedence.tla) "
+                  "model-checked by TLC over the complete case space; TLC prints each case's abstract project, which is "
+                  "materialised and linted; TLC trace validation of the attributed items and their sources",
+        text="TLC checks M |= R for every combination own x .license x chain of up to three REUSE.toml files (and dep5) "
+             "within the bound, and judges, for every one of those cases plus TLC-sampled deeper/two-table chains, the "
+             "exact set of (value, source path, source type) items that `reuse lint --json` reports.",
+        note="Trusts TLC, the materialiser and the JSON projection; glob forms in tables are restricted to those with no "
+             "C05 subtlety; the lenient reading of 'override' is stated in the evidence assumptions.",
+        ref="5/C04"),
 }
 
 NOT_YET = {}
